@@ -48,17 +48,37 @@ def r1_merge(ctx):
     # padding
     adds = [n for n in g.stmt_nodes(ast.AugAssign) if u(n.ast.target) == "stops" and isinstance(n.ast.op, ast.Add)]
     subs = [n for n in g.stmt_nodes(ast.AugAssign) if u(n.ast.target).endswith(".stop") and isinstance(n.ast.op, ast.Sub)]
-    ctx.need(len(adds) == 1 and len(subs) == 1, "merge_intervals: padding add / remove not found")
-    pa, ps = sym.poly(adds[0].ast.value), sym.poly(subs[0].ast.value)
-    ctx.ob(f.where, "gaps of up to `distance` are bridged: the running stop is padded by exactly `distance` before the test", pa == sym.Poly.atom(dist), f"+= {pa}", key="C08-R1|pad-add")
-    ctx.ob(f.where, "the padding is removed again from the reported stops (same amount)", ps == pa, f"-= {ps}", key="C08-R1|pad-remove")
-    fa, fs = _facts_at(g, adds[0]), _facts_at(g, subs[0])
-    ctx.ob(f.where, "padding is added and removed under the same condition", fa == fs and (f"(0)<({dist})", True) in fa, f"{sorted(fa)} / {sorted(fs)}", key="C08-R1|pad-guard")
     test = asg["valid_start_mask"][0]
-    ok = sym.canon(test.ast.value) == sym.canon(sym.parse_expr(f"{iv}.start[1:] > stops[:-1]"))
-    ctx.ob(f.where, "a new run starts iff next start > previous running stop (strict: touching intervals merge)", ok, u(test.ast.value), key="C08-R1|strict-test")
-    ok = g.path([adds[0]], [test]) is not None and g.path([test], [subs[0]]) is not None and g.path([test], adds) is None
-    ctx.ob(f.where, "order: pad, test, un-pad", ok, "", key="C08-R1|order")
+    if not adds and not subs:
+        # the same decision written without padding the running stops in place: next start > previous running stop + distance
+        tv = test.ast.value
+        ctx.need(isinstance(tv, ast.Compare) and len(tv.ops) == 1, "merge_intervals: the new-run test is not a single comparison")
+        lhs, rhs, op = tv.left, tv.comparators[0], tv.ops[0]
+        if isinstance(op, (ast.Lt, ast.LtE)):
+            lhs, rhs, op = rhs, lhs, (ast.Gt() if isinstance(op, ast.Lt) else ast.GtE())
+        diff = sym.poly(rhs) - sym.poly(lhs)
+        run = sym.Poly.atom("stops[:-1]") - sym.Poly.atom(sym.canon(sym.parse_expr(f"{iv}.start[1:]")))
+        raw = sym.Poly.atom(sym.canon(sym.parse_expr(f"{iv}.stop[:-1]"))) - sym.Poly.atom(sym.canon(sym.parse_expr(f"{iv}.start[1:]")))
+        pad = diff - run
+        if diff - raw == sym.Poly.atom(dist) or diff == raw:
+            ctx.ob(f.where, "a new run starts iff next start > previous RUNNING stop (the cumulative maximum, not the previous interval's own stop: an interval nested in an "
+                   "earlier, longer one must not end the run)", False, u(tv), key="C08-R1|strict-test")
+            return
+        if not (pad == sym.Poly.atom(dist) or pad == sym.Poly()):
+            raise Unrecognised(f"{f.where}: the new-run test `{u(tv)}` is in a form the checker cannot compare")
+        ctx.ob(f.where, "gaps of up to `distance` are bridged: the running stop is padded by exactly `distance` before the test", pad == sym.Poly.atom(dist), f"+ {pad}", key="C08-R1|pad-add")
+        ctx.ob(f.where, "a new run starts iff next start > previous running stop (strict: touching intervals merge)", isinstance(op, ast.Gt), u(tv), key="C08-R1|strict-test")
+    else:
+        ctx.need(len(adds) == 1 and len(subs) == 1, "merge_intervals: padding add / remove not found")
+        pa, ps = sym.poly(adds[0].ast.value), sym.poly(subs[0].ast.value)
+        ctx.ob(f.where, "gaps of up to `distance` are bridged: the running stop is padded by exactly `distance` before the test", pa == sym.Poly.atom(dist), f"+= {pa}", key="C08-R1|pad-add")
+        ctx.ob(f.where, "the padding is removed again from the reported stops (same amount)", ps == pa, f"-= {ps}", key="C08-R1|pad-remove")
+        fa, fs = _facts_at(g, adds[0]), _facts_at(g, subs[0])
+        ctx.ob(f.where, "padding is added and removed under the same condition", fa == fs and (f"(0)<({dist})", True) in fa, f"{sorted(fa)} / {sorted(fs)}", key="C08-R1|pad-guard")
+        ok = sym.canon(test.ast.value) == sym.canon(sym.parse_expr(f"{iv}.start[1:] > stops[:-1]"))
+        ctx.ob(f.where, "a new run starts iff next start > previous running stop (strict: touching intervals merge)", ok, u(test.ast.value), key="C08-R1|strict-test")
+        ok = g.path([adds[0]], [test]) is not None and g.path([test], [subs[0]]) is not None and g.path([test], adds) is None
+        ctx.ob(f.where, "order: pad, test, un-pad", ok, "", key="C08-R1|order")
     env = {k: v[0].ast.value for k, v in asg.items() if len(v) == 1}
     ok = sym.same(env.get("start_mask"), "np.concatenate(([True], valid_start_mask))") and sym.same(env.get("stop_mask"), "np.concatenate((valid_start_mask, [True]))")
     ctx.ob(f.where, "run starts = first interval + every interval after a gap; run ends = every interval before a gap + the last", ok, "", key="C08-R1|masks")
@@ -119,12 +139,44 @@ def r2_sort_keys(ctx):
     ctx.need(len(ls) == 1, "GenomicIntervalsFull.sorted: lexsort not found")
     ctx.ob(g.where, "genomic intervals sort by chromosome code, start, stop", _lexsort_keys(ls[0]) == ["self.stop", "self.start", "self.chromosome.raw()"], str(_lexsort_keys(ls[0])),
            key="C08-R2|genomic-sorted")
-    h = ix.func("bionumpy.genomic_data.genomic_intervals", "GenomicLocationGlobal.sorted") if ix.has_func("bionumpy.genomic_data.genomic_intervals", "GenomicLocationGlobal.sorted") else None
-    if h is not None:
-        ls = [c for c in func_calls(h.node) if u(c.func) == "np.lexsort"]
-        if ls:
-            ctx.ob(h.where, "genomic locations sort by chromosome code, then position", _lexsort_keys(ls[0]) == ["self.position", "self.chromosome.raw()"], str(_lexsort_keys(ls[0])),
-                   key="C08-R2|location-sorted")
+    location_sorted(ctx, "C08-R2")
+
+
+def location_sorted(ctx, rid):
+    """GenomicLocationGlobal.sorted: genome order = chromosome code, then position.  Two exact forms: a lexsort on (position, chromosome code), or a stable
+    argsort of ONE combined integer key chromosome*M + position, which orders like the pair only if M exceeds every position."""
+    ix = ctx.index
+    if not ix.has_func("bionumpy.genomic_data.genomic_intervals", "GenomicLocationGlobal.sorted"):
+        return
+    h = ix.func("bionumpy.genomic_data.genomic_intervals", "GenomicLocationGlobal.sorted")
+    env = local_env(h.node)
+    ls = [c for c in func_calls(h.node) if u(c.func) == "np.lexsort"]
+    ags = [c for c in func_calls(h.node) if u(c.func) in ("np.argsort",) or (isinstance(c.func, ast.Attribute) and c.func.attr == "argsort")]
+    if ls:
+        ctx.ob(h.where, "genomic locations sort by chromosome code, then position", _lexsort_keys(ls[0]) == ["self.position", "self.chromosome.raw()"], str(_lexsort_keys(ls[0])),
+               key=f"{rid}|location-sorted")
+        return
+    if len(ags) != 1:
+        raise Unrecognised(f"{h.where}: genomic locations are sorted in a form the checker does not know")
+    c = ags[0]
+    key = inline_locals(c.args[0] if u(c.func) == "np.argsort" else c.func.value, env)
+    pk = sym.poly(key)
+    pos = sym.canon(sym.parse_expr("self.position"))
+    chrom_atoms = [a for a in pk.atoms() if "chromosome" in a]
+    # key = chrom * M + position  <=>  key - position is a multiple of the chromosome code
+    rest = pk - sym.Poly.atom(pos)
+    if len(chrom_atoms) != 1 or any(pos == a for a in rest.atoms()):
+        raise Unrecognised(f"{h.where}: genomic locations are sorted by `{u(key)}`")
+    ch = chrom_atoms[0]
+    cands = {"np.max(self.position) + 1": True, "self.position.max() + 1": True, "np.max(self.position)": False, "self.position.max()": False}
+    verdict = None
+    for txt, good in cands.items():
+        if rest == sym.Poly.atom(ch) * sym.poly(sym.parse_expr(txt)):
+            verdict = good
+    if verdict is None:
+        raise Unrecognised(f"{h.where}: genomic locations are sorted by the combined key `{u(key)}`: cannot decide that the multiplier exceeds every position")
+    ctx.ob(h.where, "genomic locations sort by chromosome code, then position: a combined key chromosome*M + position orders like the pair only if M exceeds every "
+           "position (with M = the largest position, the last position of one chromosome ties with position 0 of the next)", verdict, u(key), key=f"{rid}|location-sorted")
 
 
 def r3_overlap_family(ctx):
@@ -195,8 +247,34 @@ def r4_clamps(ctx):
     ix = ctx.index
     c = ix.func(IV, "clip")
     iv, sizes = c.params
-    e = single_return_expr(c.node)
-    ctx.need(isinstance(e, ast.Call) and u(e.func) in ("replace", "dataclasses.replace"), "clip: replace(...) not found")
+    gc = CFG(c.node)
+    rets = [n for n in gc.nodes if n.kind == "stmt" and isinstance(n.ast, ast.Return)]
+    e = None
+    for r in rets:
+        if isinstance(r.ast.value, ast.Call) and u(r.ast.value.func) in ("replace", "dataclasses.replace"):
+            ctx.need(e is None, "clip: more than one replace(...) return")
+            e = r.ast.value
+            continue
+        if not (isinstance(r.ast.value, ast.Name) and r.ast.value.id == iv):
+            raise Unrecognised(f"{c.where}: clip returns `{u(r.ast.value)}`")
+        # a return of the input untouched: right only where nothing can stick out -- no rows, or every start >= 0 and every stop <= the size OF ITS OWN ROW
+        facts = _facts_at(gc, r)
+        if (f"(0)==(len({iv}))", True) in facts:
+            continue
+        cn = lambda t: sym.canon(sym.parse_expr(t))
+        low_ok = any(v and k in (f"(0)<=(np.min({iv}.start))", f"(np.all(0<={iv}.start))", f"np.all({cn(f'{iv}.start >= 0')})") for k, v in facts)
+        up_ok = any(v and k in (f"(np.max({iv}.stop))<=(np.min({sizes}))", f"np.all({cn(f'{iv}.stop <= {sizes}')})") for k, v in facts)
+        low_any = [k for k, v in facts if f"{iv}.start" in k]
+        up_any = [k for k, v in facts if f"{iv}.stop" in k or sizes in k]
+        up_agg = [k for k in up_any if f"np.max({sizes})" in k or f"{sizes}.max()" in k or f"{sizes}[" in k]
+        if low_ok and up_ok:
+            continue
+        if (not low_ok and not low_any) or (not up_ok and (not up_any or up_agg)):
+            ctx.ob(c.where, "clip: the input is returned untouched only where no start is below 0 and no stop is above the size of its own contig (a bound taken over all "
+                   "contigs says nothing about the row's own contig)", False, f"return {iv} under {sorted(k for k, v in facts if v)}", key="C08-R4|clip-passthrough")
+            continue
+        raise Unrecognised(f"{c.where}: clip returns its input under {sorted(facts)}: cannot decide that nothing sticks out there")
+    ctx.need(e is not None, "clip: replace(...) not found")
     kws = {k.arg: k.value for k in e.keywords}
     s, t = sym.canon(kws.get("start")), sym.canon(kws.get("stop"))
     ok_s = s in (f"np.maximum(0, {iv}.start)", f"np.maximum({iv}.start, 0)")
